@@ -53,6 +53,7 @@ fn judge_sink(out: &crate::world::OutFile, lowercased: bool, earlier_csv: &[Vec<
         bump("preexisting_file", 1);
     }
     match &out.format {
+        OutFormat::JsonArray => {}
         OutFormat::Json => {
             if relaxed {
                 // hard fault: may fail or lose un-acknowledged data, never wrong data. At most one damaged line per hard fault.
